@@ -1,7 +1,7 @@
 (* L1: capnp.Equal (pointer.go) over the read-side model, following the Go code step by
    step: same checks in the same order, the bytewise fast path for data-only lists, the
    traversal limit consumed by every Struct.Ptr, Go panics as [EPanic].
-   The two pointers live in message A and message B, or both in message A ([ew_same]); a
+   The two pointers live in message A and message B, or both in message A ([ec_same]); a
    message is its segments, capability table (client ids, 0 = nil client) and read limit.
    [fx_bitlist]: false = the code as found (defect F01: a bit list has element size 0, so
    the fast path compares 0 bytes), true = the repaired code.
@@ -13,22 +13,22 @@ Open Scope Z_scope.
 
 Record efix := mkEFix { fx_bitlist : bool; fx_farnull : bool; fx_rd : fixes }.
 
-Record eworld := mkEW {
-  ew_segs_a : segs; ew_caps_a : list Z;
-  ew_segs_b : segs; ew_caps_b : list Z;
-  ew_same : bool;                      (* both pointers belong to message A *)
-  ew_rla : Z; ew_rlb : Z               (* remaining read limits *)
+(* the static context of one comparison: the two messages (segments, capability table) and
+   whether both pointers belong to message A; the state is the pair of remaining read limits *)
+Record ectx := mkEC {
+  ec_segs_a : segs; ec_caps_a : list Z;
+  ec_segs_b : segs; ec_caps_b : list Z;
+  ec_same : bool
 }.
+Definition lims := (Z * Z)%type.
 
 Inductive side := SA | SB.
-Definition on_a (w : eworld) (s : side) : bool := ew_same w || match s with SA => true | SB => false end.
-Definition w_segs_of (w : eworld) (s : side) : segs := if on_a w s then ew_segs_a w else ew_segs_b w.
-Definition w_caps_of (w : eworld) (s : side) : list Z := if on_a w s then ew_caps_a w else ew_caps_b w.
-Definition w_rl_of (w : eworld) (s : side) : Z := if on_a w s then ew_rla w else ew_rlb w.
-Definition w_put_rl (w : eworld) (s : side) (rl : Z) : eworld :=
-  if on_a w s
-  then mkEW (ew_segs_a w) (ew_caps_a w) (ew_segs_b w) (ew_caps_b w) (ew_same w) rl (ew_rlb w)
-  else mkEW (ew_segs_a w) (ew_caps_a w) (ew_segs_b w) (ew_caps_b w) (ew_same w) (ew_rla w) rl.
+Definition on_a (x : ectx) (s : side) : bool := ec_same x || match s with SA => true | SB => false end.
+Definition segs_of (x : ectx) (s : side) : segs := if on_a x s then ec_segs_a x else ec_segs_b x.
+Definition caps_of (x : ectx) (s : side) : list Z := if on_a x s then ec_caps_a x else ec_caps_b x.
+Definition rl_of (x : ectx) (st : lims) (s : side) : Z := if on_a x s then fst st else snd st.
+Definition put_rl (x : ectx) (st : lims) (s : side) (rl : Z) : lims :=
+  if on_a x s then (rl, snd st) else (fst st, rl).
 
 (* outcome of Equal: (bool, nil) / (false, err) / panic; fuel exhaustion is a separate
    outcome that the theorems exclude *)
@@ -73,10 +73,10 @@ Fixpoint no_ptrs (fixed strict : bool) (m : segs) (p : Ptr) (n : nat) (i : Z) : 
 Definition client_of (caps : list Z) (i : Z) : Z :=
   if (0 <=? i) && (i <? zlen caps) then nth (Z.to_nat i) caps 0 else 0.
 
-Definition iface_equal (w : eworld) (p q : Ptr) : bool :=
-  let same_msg := ew_same w in
-  let c1 := w_caps_of w SA in
-  let c2 := w_caps_of w SB in
+Definition iface_equal (x : ectx) (p q : Ptr) : bool :=
+  let same_msg := ec_same x in
+  let c1 := caps_of x SA in
+  let c2 := caps_of x SB in
   if same_msg && (p_len p =? p_len q) then true
   else if same_msg && ((p_len p >=? zlen c1) || (p_len q >=? zlen c1)) then false
   else client_of c1 (p_len p) =? client_of c2 (p_len q).
@@ -91,16 +91,16 @@ Definition bits_equal (d1 d2 : list Z) (n : Z) : bool :=
     let l2 := nth (sz - 1) d2 0 in
     (l1 mod 2 ^ rem =? l2 mod 2 ^ rem) && bytes_eqb (firstn (sz - 1) d1) (firstn (sz - 1) d2).
 
-Fixpoint equal_m (fuel : nat) (c : config) (fx : efix) (w : eworld) (p q : Ptr) {struct fuel}
-  : eout * eworld :=
+Fixpoint equal_m (fuel : nat) (c : config) (fx : efix) (x : ectx) (w : lims) (p q : Ptr) {struct fuel}
+  : eout * lims :=
   match fuel with
   | O => (EFuel, w)
   | S f =>
     if negb (p_valid p) && negb (p_valid q) then (EOk true, w)
     else if negb (p_valid p) || negb (p_valid q) then (EOk false, w)
     else
-      let m1 := w_segs_of w SA in
-      let m2 := w_segs_of w SB in
+      let m1 := segs_of x SA in
+      let m2 := segs_of x SB in
       match p_kind p, p_kind q with
       | KStruct, KStruct =>
         match slice (seg_of m1 p) (p_off p) (DataSize (p_size p)) with
@@ -115,21 +115,21 @@ Fixpoint equal_m (fuel : nat) (c : config) (fx : efix) (w : eworld) (p q : Ptr) 
             let n := Z.min pc1 pc2 in
             (* common pointers *)
             let loop :=
-              (fix loop (k : nat) (i : Z) (w : eworld) {struct k} : eout * eworld :=
+              (fix loop (k : nat) (i : Z) (w : lims) {struct k} : eout * lims :=
                  match k with
                  | O => (EOk true, w)
                  | S k' =>
-                   let '(r1, rl1) := struct_ptr c (w_segs_of w SA) (w_rl_of w SA) p i in
-                   let w1 := w_put_rl w SA rl1 in
+                   let '(r1, rl1) := struct_ptr c (segs_of x SA) (rl_of x w SA) p i in
+                   let w1 := put_rl x w SA rl1 in
                    match r1 with
                    | Panic => (EPanic, w1) | Err => (EErr, w1)
                    | Ok sp1 =>
-                     let '(r2, rl2) := struct_ptr c (w_segs_of w1 SB) (w_rl_of w1 SB) q i in
-                     let w2 := w_put_rl w1 SB rl2 in
+                     let '(r2, rl2) := struct_ptr c (segs_of x SB) (rl_of x w1 SB) q i in
+                     let w2 := put_rl x w1 SB rl2 in
                      match r2 with
                      | Panic => (EPanic, w2) | Err => (EErr, w2)
                      | Ok sp2 =>
-                       match equal_m f c fx w2 sp1 sp2 with
+                       match equal_m f c fx x w2 sp1 sp2 with
                        | (EOk true, w3) => loop k' (i + 1) w3
                        | other => other
                        end
@@ -155,7 +155,7 @@ Fixpoint equal_m (fuel : nat) (c : config) (fx : efix) (w : eworld) (p q : Ptr) 
         if negb (list_len p =? list_len q) then (EOk false, w)
         else
           (* the repair of F01 *)
-          let bit_case : option (eout * eworld) :=
+          let bit_case : option (eout * lims) :=
             if fx_bitlist fx then
               if negb (Bool.eqb (p_bit p) (p_bit q)) then Some (EOk false, w)
               else if p_bit p then
@@ -187,7 +187,7 @@ Fixpoint equal_m (fuel : nat) (c : config) (fx : efix) (w : eworld) (p q : Ptr) 
                 end
               end
             else
-              (fix loop (k : nat) (i : Z) (w : eworld) {struct k} : eout * eworld :=
+              (fix loop (k : nat) (i : Z) (w : lims) {struct k} : eout * lims :=
                  match k with
                  | O => (EOk true, w)
                  | S k' =>
@@ -197,7 +197,7 @@ Fixpoint equal_m (fuel : nat) (c : config) (fx : efix) (w : eworld) (p q : Ptr) 
                      match list_struct (fx_depth (fx_rd fx)) q i with
                      | Panic => (EPanic, w) | Err => (EErr, w)
                      | Ok e2 =>
-                       match equal_m f c fx w e1 e2 with
+                       match equal_m f c fx x w e1 e2 with
                        | (EOk true, w') => loop k' (i + 1) w'
                        | other => other
                        end
@@ -205,7 +205,7 @@ Fixpoint equal_m (fuel : nat) (c : config) (fx : efix) (w : eworld) (p q : Ptr) 
                    end
                  end) (Z.to_nat (list_len p)) 0 w
           end
-      | KIface, KIface => (EOk (iface_equal w p q), w)
+      | KIface, KIface => (EOk (iface_equal x p q), w)
       | _, _ => (EOk false, w)
       end
   end.
@@ -230,12 +230,13 @@ Definition run_equal (fuel : nat) (ca cb : config) (fx : efix)
            (sa sb : sel) : eout * Z * Z :=
   let '(rp, rla) := select ca ma (init_rlimit ca) sa in
   let '(rq, rlb) := if same then select ca ma rla sb else select cb mb (init_rlimit cb) sb in
-  let w := if same then mkEW ma capsa mb capsb true rlb 0 else mkEW ma capsa mb capsb false rla rlb in
+  let x := mkEC ma capsa mb capsb same in
+  let w : lims := if same then (rlb, 0) else (rla, rlb) in
   match rp, rq with
   | Ok p, Ok q =>
-    let '(r, w') := equal_m fuel ca fx w p q in (r, ew_rla w', ew_rlb w')
-  | Panic, _ | _, Panic => (EPanic, ew_rla w, ew_rlb w)
-  | _, _ => (EErr, ew_rla w, ew_rlb w)
+    let '(r, w') := equal_m fuel ca fx x w p q in (r, fst w', snd w')
+  | Panic, _ | _, Panic => (EPanic, fst w, snd w)
+  | _, _ => (EErr, fst w, snd w)
   end.
 
 (* every declared list length is within the walker's cap (nothing was cut off, and [denote]
